@@ -83,6 +83,8 @@ def blanks_cmd(ci, kinds, seplens, bodyidx, tail, name):
     groups = []
     for i, k in enumerate(kinds):
         b = BODIES[(bodyidx + i) % len(BODIES)]
+        if k == 'k' and (']' in b or '[' in b):
+            b = 'o{]}'          # a bracket group ends at the first ] outside braces
         groups.append(('[' + b + ']') if k == 'k' else ('{' + b + '}'))
     seps = [B(n) for n in seplens]
     pre, post = CTX[ci]
@@ -127,6 +129,10 @@ TEMPLATES = [
     lambda t, u: '\\\\\\a' + t + '{' + u + '}',
     lambda t, u: '2 \\\\\\hline' + t + '\n' + u + '\\\\\\\\x',
     lambda t, u: '\\a' + t + '\\\\\\b ' + u + '\\\\[1pt]',
+    lambda t, u: '\\begin{e}' + t + '\\end[e]' + u,
+    lambda t, u: '\\begin{a\\ }' + t + '\\end{a\\ }' + u,
+    lambda t, u: '\\begin{a%\n}' + t + '\\end{a%\n}' + u,
+    lambda t, u: '\\foo{a}~{' + t + '}' + u + '\\ldots~[1]',
 ]
 NTEMPLATES = len(TEMPLATES)
 
